@@ -281,7 +281,7 @@ def run_plan(plan, seed, choices=None):
                     # marked up again (and reconnected when it fails later), or opening its pools fails and _cleanup_failed_on_up_handling
                     # starts a new reconnector for it.
                     began_before = any(ep[2] == 'STATUS_CHANGE' and ep[3][0] == 'UP' and ep[3][1] == addr and ep[0] < rm[0] for ep in fc.events_pushed) or \
-                        any(e_[4] == 'success' and not e_[5] and e_[0] < rm[0] for e_ in by_host.get(addr, []))
+                        any(e_[4] == 'success' and not e_[5] and e_[0] < seq for e_ in by_host.get(addr, []))
                     V.add('C25/no-reconnect-removed', 'reconnect-after-remove' + (':up-handling-began-before-removal' if began_before else ''),
                           'host %s was removed at seq %d but a reconnection attempt started at seq %d%s'
                           % (addr, rm[0], seq, ' (up handling for it had begun before the removal)' if began_before else ''))
@@ -332,11 +332,12 @@ def run_plan(plan, seed, choices=None):
                 elif k in ('up', 'down') and state == 'removed':
                     sq = perseq[addr][idx_]
                     rm_sq = perseq[addr][idx_ - 1]
-                    # up handling that began before the removal (a STATUS_CHANGE UP event already scheduled, or a reconnection that had
-                    # succeeded - not cancelled - before the removal ran) and completed after it: known finding
+                    # up handling that began before the removal completed (a STATUS_CHANGE UP event already scheduled, or a reconnection
+                    # that succeeded before on_remove got to cancel the handler - it notifies listeners first and cancels last) and
+                    # finished after it: known finding
                     pending_up = (
                         any(ep[2] == 'STATUS_CHANGE' and ep[3][0] == 'UP' and ep[3][1] == addr and ep[0] < rm_sq for ep in fc.events_pushed) or
-                        any(e_[4] == 'success' and not e_[5] and e_[0] < rm_sq for e_ in by_host.get(addr, [])))
+                        any(e_[4] == 'success' and not e_[5] and e_[0] < sq for e_ in by_host.get(addr, [])))
                     V.add('C25/notify-once', 'notified-after-remove:%s:%s' % (k, name) + (':up-handling-began-before-removal' if pending_up else ''),
                           '%s saw for host %s: %r' % (name, addr, ks))
                     break
